@@ -74,7 +74,7 @@ type PropMeta struct {
 }
 
 // PropIDs lists the properties that have a check.
-var PropIDs = []string{"C02", "C03", "C04", "C06", "C07", "C08", "C09", "C10", "C13", "C14", "C05", "C12", "C16", "C18", "C19"}
+var PropIDs = []string{"C02", "C03", "C04", "C06", "C07", "C08", "C09", "C10", "C11", "C13", "C14", "C05", "C12", "C16", "C18", "C19"}
 
 type WorkerOut struct {
 	Meta         PropMeta          `json:"meta"`
